@@ -1918,7 +1918,12 @@ func (c *compiler) VisitCastExpr(e *ast.CastExpr) ast.VisitResult {
 				break
 			}
 
-			c.latestReturn, c.latestReturnType, c.latestIsTemp = c.castNonAnyToAny(lhs, lhsTyp, isTempLhs, lhsTyp.VTable())
+			// a value of a type definition keeps its own type inside the Variable, as with implicit conversions
+			vtable := lhsTyp.VTable()
+			if typeDef, isTypeDef := ddptypes.CastTypeDef(e.LhsType); isTypeDef {
+				vtable = c.typeDefVTables[c.mangledNameType(typeDef)]
+			}
+			c.latestReturn, c.latestReturnType, c.latestIsTemp = c.castNonAnyToAny(lhs, lhsTyp, isTempLhs, vtable)
 		default:
 			if lhsTyp == c.ddpany {
 				nonPrimitiveAnyCast()
